@@ -61,7 +61,7 @@ def shards(tier, seed):
     # the same question with the query batch partitioned over two jobs (joblib model, default schedule): every row
     # must still be conditioned on its own cell whatever chunk it lands in
     for first in range(len(P5)):
-        for ln in ["eg0", "ucb"]:
+        for ln in (["eg0"] if tier == "quick" else ["eg0", "ucb"]):
             out.append({"kind": "tree", "setting": "default", "params": {}, "ln": ln, "nmax": 3 if tier == "quick" else 4,
                         "first": first, "seed": 141 + seed, "quick": tier == "quick", "n_jobs": 2})
         out.append({"kind": "clu", "setting": "c2", "k": 2, "mb": False, "ln": "eg0", "nmax": 3 if tier == "quick" else 4,
